@@ -1,10 +1,11 @@
 """C04 - MultiplexHypergraph keeps (hyperedge, layer) records; aggregation sums layers."""
-from checks.containers import run_container, explore
+from checks.containers import run_container, explore, explore_kimpl
 from harness.verdict import Result
 
 
 def run(tier, seed):
     res = Result("C04", tier, seed, "model_checking")
+    explore_kimpl(res, "mux", tier)
     explore(res, "mux", tier, module="MC_Derive", invariants=["TypeOK", "AggregatedIsSum"],
             configs=[dict(n=2, maxw=2, batches=False, metaops=False, xs=["L1", "L2"])])
     return run_container("C04", "mux", tier, seed, res=res, plan={"derive": ("mux", 0.6)})
